@@ -1,3 +1,280 @@
-/- stub: model `Blackboard` (to be written) -/
+/-
+L1 model of the blackboard ports (`iceoryx2/src/port/writer.rs`, `reader.rs`, service builder / resources
+`service/builder/blackboard.rs`, `service/resource/blackboard.rs`, `service/dynamic_config/blackboard.rs`).
+Every public API call is one step (the concurrency inside one entry cell is covered by `Iox2.Model.SeqLock`).
+
+What the code does, and how it is represented:
+
+* A service has a fixed list of entries (keys 0..n-1 here).  An entry is an `UnrestrictedAtomic<T>`:
+  `write_cell` counter (starts at 1), two data cells, flag `has_producer`.  `Cell.cur` is the data cell
+  `(write_cell-1) % 2` (what `load` returns), `Cell.scratch` the other one (`write_cell % 2`, where the
+  next value is prepared; `none` = never written), `Cell.gen` = `write_cell`, `Cell.prod = true` iff the
+  producer token is handed out (`has_producer == false` in the code).
+  `store v` / `update_with_copy v`: write into scratch, `fetch_add(1)`: the cells change roles.
+* `Writer::new` registers a `WriterDetails` in the dynamic config container of capacity `max_writers = 1`
+  (`wslots`).  The registration is released by `Drop for WriterSharedState`; that shared state is
+  reference counted and held by the `Writer` *and by every `EntryHandleMut` / `EntryValueUninit`* created
+  from it.  So the slot is freed when the port and all its write handles are gone (`release`).
+* `Writer::entry::<T>(key)`: key lookup → `EntryDoesNotExist`; type comparison → `EntryDoesNotExist`
+  (there is no separate type-mismatch error); `acquire_producer` fails → `HandleAlreadyExists`.
+  `EntryHandleMut::loan_uninit` *moves* the handle into the `EntryValueUninit` (the producer token stays
+  taken); `update_with_copy` / `assume_init_and_update` / `discard` give it back; dropping the
+  `EntryValueUninit` drops the handle inside (token released).
+* `Reader::new` registers in the container of capacity `max_readers` (0 is adjusted to 1 by the creator);
+  `Drop for Reader` releases the registration at once; `EntryHandle`s keep only the service alive and stay
+  usable.  `EntryHandle::get` returns the value and remembers `write_cell` (for `is_up_to_date`).
+* Labels (`w r h l g`) name objects of the harness; a label is accepted once (`dup` otherwise).  `none` = no
+  live object with that label, `moved` = the `EntryHandleMut` is inside an `EntryValueUninit` right now.
+-/
 namespace Iox2.Blackboard
+
+abbrev Val := Nat
+
+structure Cell where
+  ty : Nat
+  cur : Val
+  gen : Nat
+  scratch : Option Val
+  prod : Bool
+deriving DecidableEq, Repr
+
+/-- an `EntryHandleMut`; `loan = some (l, x)`: it currently lives inside the `EntryValueUninit` labelled `l`,
+`x` = the value written last through `value_mut()` during this loan (`none`: nothing yet) -/
+structure HMut where
+  id : Nat
+  writer : Nat
+  key : Nat
+  loan : Option (Nat × Option Val)
+deriving DecidableEq, Repr
+
+/-- an `EntryHandle`; `last` = generation counter of the `BlackboardValue` obtained last -/
+structure RHandle where
+  id : Nat
+  reader : Nat
+  key : Nat
+  last : Option Nat
+deriving DecidableEq, Repr
+
+structure World where
+  maxReaders : Nat
+  cells : List Cell
+  svc : Bool               -- the `PortFactory` object of the harness is alive
+  wports : List Nat        -- live `Writer` ports
+  wslots : List Nat        -- registered writers (dynamic config, capacity 1), named by the port's label
+  rports : List Nat        -- live `Reader` ports = registered readers
+  hmuts : List HMut
+  rhandles : List RHandle
+  usedW : List Nat
+  usedR : List Nat
+  usedH : List Nat
+  usedL : List Nat
+  usedG : List Nat
+deriving DecidableEq, Repr
+
+inductive Err where
+  | ExceedsMaxSupportedWriters | ExceedsMaxSupportedReaders | EntryDoesNotExist | HandleAlreadyExists
+deriving DecidableEq, Repr
+
+inductive Out where
+  | ok | err (e : Err) | dup | none | moved | noService | unwritten | noval
+  | val (v : Val) | bool (b : Bool) | count (w r : Nat)
+deriving DecidableEq, Repr
+
+inductive Op where
+  | cwriter (w : Nat) | dwriter (w : Nat) | creader (r : Nat) | dreader (r : Nat)
+  | hmut (w k h t : Nat) | dhmut (h : Nat) | update (h : Nat) (v : Val) | loan (h l : Nat)
+  | lwrite (l : Nat) (v : Val) | lcommit (l : Nat) | commit (l : Nat) (v : Val) | discard (l : Nat) | dloan (l : Nat)
+  | hget (r k g t : Nat) | dhget (g : Nat) | get (g : Nat) | fresh (g : Nat)
+  | dsvc | count
+deriving DecidableEq, Repr
+
+def maxWriters : Nat := 1
+
+/-- `Creator::create`: `max_readers == 0` is adjusted to 1; every entry starts with value 0, `write_cell = 1`,
+producer token available -/
+def World.init (maxReaders : Nat) (tys : List Nat) : World :=
+  { maxReaders := if maxReaders = 0 then 1 else maxReaders,
+    cells := tys.map (fun t => { ty := t, cur := 0, gen := 1, scratch := none, prod := false }),
+    svc := true, wports := [], wslots := [], rports := [], hmuts := [], rhandles := [],
+    usedW := [], usedR := [], usedH := [], usedL := [], usedG := [] }
+
+def modAt {α : Type} : List α → Nat → (α → α) → List α
+  | [], _, _ => []
+  | a :: as, 0, f => f a :: as
+  | a :: as, n + 1, f => a :: modAt as n f
+
+def findH (hs : List HMut) (h : Nat) : Option HMut := hs.find? (fun m => m.id == h)
+def loanLabel (m : HMut) : Option Nat := m.loan.map (·.1)
+def findL (hs : List HMut) (l : Nat) : Option HMut := hs.find? (fun m => loanLabel m == some l)
+def findG (gs : List RHandle) (g : Nat) : Option RHandle := gs.find? (fun m => m.id == g)
+
+def setLoan (hs : List HMut) (id : Nat) (lo : Option (Nat × Option Val)) : List HMut :=
+  hs.map (fun m => if m.id == id then { m with loan := lo } else m)
+
+/-- `store` / `fetch_add` on the entry: the prepared value becomes the current one -/
+def Cell.store (c : Cell) (v : Val) : Cell := { c with cur := v, scratch := some c.cur, gen := c.gen + 1 }
+/-- `__internal_update_write_cell` alone: whatever is in the write cell becomes current -/
+def Cell.publish (c : Cell) : Cell := { c with cur := c.scratch.getD 0, scratch := some c.cur, gen := c.gen + 1 }
+
+/-- `Drop for WriterSharedState` runs when the last holder (port or write handle) is gone -/
+def release (w : World) (x : Nat) : World :=
+  if x ∈ w.wports ∨ w.hmuts.any (fun m => m.writer == x) then w
+  else { w with wslots := w.wslots.filter (fun y => y != x) }
+
+/-- the `EntryHandleMut` `m` is dropped: producer token back, shared writer state possibly released -/
+def removeH (w : World) (m : HMut) : World :=
+  release { w with hmuts := w.hmuts.filter (fun m' => m'.id != m.id),
+                   cells := modAt w.cells m.key (fun c => { c with prod := false }) } m.writer
+
+def cwriter (w : World) (x : Nat) : World × Out :=
+  if x ∈ w.usedW then (w, .dup)
+  else if !w.svc then (w, .noService)
+  else if w.wslots.length < maxWriters then
+    ({ w with wports := x :: w.wports, wslots := x :: w.wslots, usedW := x :: w.usedW }, .ok)
+  else (w, .err .ExceedsMaxSupportedWriters)
+
+def dwriter (w : World) (x : Nat) : World × Out :=
+  if x ∈ w.wports then (release { w with wports := w.wports.filter (fun y => y != x) } x, .ok)
+  else (w, .none)
+
+def creader (w : World) (r : Nat) : World × Out :=
+  if r ∈ w.usedR then (w, .dup)
+  else if !w.svc then (w, .noService)
+  else if w.rports.length < w.maxReaders then
+    ({ w with rports := r :: w.rports, usedR := r :: w.usedR }, .ok)
+  else (w, .err .ExceedsMaxSupportedReaders)
+
+def dreader (w : World) (r : Nat) : World × Out :=
+  if r ∈ w.rports then ({ w with rports := w.rports.filter (fun y => y != r) }, .ok)
+  else (w, .none)
+
+def hmut (w : World) (x k h t : Nat) : World × Out :=
+  if h ∈ w.usedH then (w, .dup)
+  else if x ∉ w.wports then (w, .none)
+  else match w.cells[k]? with
+    | none => (w, .err .EntryDoesNotExist)
+    | some c =>
+      if c.ty ≠ t then (w, .err .EntryDoesNotExist)
+      else if c.prod then (w, .err .HandleAlreadyExists)
+      else ({ w with cells := modAt w.cells k (fun c => { c with prod := true }),
+                     hmuts := { id := h, writer := x, key := k, loan := none } :: w.hmuts,
+                     usedH := h :: w.usedH }, .ok)
+
+def dhmut (w : World) (h : Nat) : World × Out :=
+  match findH w.hmuts h with
+  | none => (w, .none)
+  | some m => if m.loan.isSome then (w, .moved) else (removeH w m, .ok)
+
+def update (w : World) (h : Nat) (v : Val) : World × Out :=
+  match findH w.hmuts h with
+  | none => (w, .none)
+  | some m => if m.loan.isSome then (w, .moved)
+              else ({ w with cells := modAt w.cells m.key (fun c => c.store v) }, .ok)
+
+def loan (w : World) (h l : Nat) : World × Out :=
+  if l ∈ w.usedL then (w, .dup)
+  else match findH w.hmuts h with
+    | none => (w, .none)
+    | some m => if m.loan.isSome then (w, .moved)
+                else ({ w with hmuts := setLoan w.hmuts m.id (some (l, none)), usedL := l :: w.usedL }, .ok)
+
+def lwrite (w : World) (l : Nat) (v : Val) : World × Out :=
+  match findL w.hmuts l with
+  | none => (w, .none)
+  | some m => ({ w with hmuts := setLoan w.hmuts m.id (some (l, some v)),
+                        cells := modAt w.cells m.key (fun c => { c with scratch := some v }) }, .ok)
+
+def lcommit (w : World) (l : Nat) : World × Out :=
+  match findL w.hmuts l with
+  | none => (w, .none)
+  | some m =>
+    match m.loan with
+    | some (_, some _) =>
+        ({ w with hmuts := setLoan w.hmuts m.id none, cells := modAt w.cells m.key (fun c => c.publish) }, .ok)
+    | _ => (w, .unwritten)
+
+def commit (w : World) (l : Nat) (v : Val) : World × Out :=
+  match findL w.hmuts l with
+  | none => (w, .none)
+  | some m => ({ w with hmuts := setLoan w.hmuts m.id none, cells := modAt w.cells m.key (fun c => c.store v) }, .ok)
+
+def discard (w : World) (l : Nat) : World × Out :=
+  match findL w.hmuts l with
+  | none => (w, .none)
+  | some m => ({ w with hmuts := setLoan w.hmuts m.id none }, .ok)
+
+def dloan (w : World) (l : Nat) : World × Out :=
+  match findL w.hmuts l with
+  | none => (w, .none)
+  | some m => (removeH w m, .ok)
+
+def hget (w : World) (r k g t : Nat) : World × Out :=
+  if g ∈ w.usedG then (w, .dup)
+  else if r ∉ w.rports then (w, .none)
+  else match w.cells[k]? with
+    | none => (w, .err .EntryDoesNotExist)
+    | some c =>
+      if c.ty ≠ t then (w, .err .EntryDoesNotExist)
+      else ({ w with rhandles := { id := g, reader := r, key := k, last := none } :: w.rhandles,
+                     usedG := g :: w.usedG }, .ok)
+
+def dhget (w : World) (g : Nat) : World × Out :=
+  match findG w.rhandles g with
+  | none => (w, .none)
+  | some _ => ({ w with rhandles := w.rhandles.filter (fun m => m.id != g) }, .ok)
+
+def get (w : World) (g : Nat) : World × Out :=
+  match findG w.rhandles g with
+  | none => (w, .none)
+  | some m =>
+    match w.cells[m.key]? with
+    | none => (w, .none)   -- unreachable: a handle exists only for an existing key
+    | some c => ({ w with rhandles := w.rhandles.map (fun m' => if m'.id == g then { m' with last := some c.gen } else m') },
+                 .val c.cur)
+
+def fresh (w : World) (g : Nat) : World × Out :=
+  match findG w.rhandles g with
+  | none => (w, .none)
+  | some m =>
+    match m.last, w.cells[m.key]? with
+    | some n, some c => (w, .bool (n == c.gen))
+    | none, _ => (w, .noval)
+    | _, none => (w, .none)   -- unreachable
+
+def dsvc (w : World) : World × Out :=
+  if w.svc then ({ w with svc := false }, .ok) else (w, .none)
+
+def count (w : World) : World × Out :=
+  if w.svc then (w, .count w.wslots.length w.rports.length) else (w, .noService)
+
+def step (w : World) : Op → World × Out
+  | .cwriter x => cwriter w x
+  | .dwriter x => dwriter w x
+  | .creader r => creader w r
+  | .dreader r => dreader w r
+  | .hmut x k h t => hmut w x k h t
+  | .dhmut h => dhmut w h
+  | .update h v => update w h v
+  | .loan h l => loan w h l
+  | .lwrite l v => lwrite w l v
+  | .lcommit l => lcommit w l
+  | .commit l v => commit w l v
+  | .discard l => discard w l
+  | .dloan l => dloan w l
+  | .hget r k g t => hget w r k g t
+  | .dhget g => dhget w g
+  | .get g => get w g
+  | .fresh g => fresh w g
+  | .dsvc => dsvc w
+  | .count => count w
+
+def run (w : World) : List Op → World
+  | [] => w
+  | op :: ops => run (step w op).1 ops
+
+/-- the outputs of a history -/
+def outs (w : World) : List Op → List Out
+  | [] => []
+  | op :: ops => (step w op).2 :: outs (step w op).1 ops
+
 end Iox2.Blackboard
